@@ -44,6 +44,31 @@ CLAIMED["C03"] = dict(
     technique="exhaustive fault-position enumeration on the implementation under a controlled scheduler, differential against the fault-free run",
     design_ref="§4 C03")
 
+CLAIMED["C04"] = dict(
+    category="model_checking", engine="enum",
+    text="Explicit-state breadth-first search over API histories on the real REST and gRPC handlers (in-process httptest / bufconn, sqlite-backed registry): alphabet of 56 operations (REST PUT/DELETE/PATCH, gRPC Transact/Delete, valid and invalid arguments), 3 roots (empty + 2 seeded stores), canonical state = multiset with multiplicity capped at 2, successors produced by replaying the shortest path on a truncated database, depth 3 quick / until the frontier empties (depth 7, 2187 states) thorough. After every transition: full listings on both transports + one query per query shape against the multiset reference model (h/refsem RefStore), accept/reject/no-effect oracles; on every new state the full 180-query sweep with two page sizes and a check/expand write-visibility panel.",
+    note="SQLite only; state abstraction caps multiplicities at 2 (delete removes all copies, so deeper multiplicities behave identically); check/expand panel is the direct-tuple version.",
+    technique="explicit-state BFS over operation histories with canonical-state de-duplication, real handlers as the transition function, reference-model oracle",
+    design_ref="§4 C04")
+CLAIMED["C06"] = dict(
+    category="model_checking", engine="enum",
+    text="Two networks A and B on one database through the production contextualizer seam; B is seeded with a small graph that shares object/subject strings with A plus B-only strings. BFS over histories in A (C04's 56-operation alphabet incl. gRPC delete with an empty query) to depth 3 (thorough 5). After every transition B's observation vector (~105 list/check/expand requests over REST and gRPC) must be unchanged and no observation in A may contain a B-only string; a statement monitor on the SQL driver checks that every statement issued for A on keto_relation_tuples binds A's network id and never B's.",
+    note="SQLite only; keto_uuid_mappings has no nid column (ids are UUIDv5 of network id and string) so the monitor there checks that no statement binds B's nid or a UUIDv5(B, s).",
+    technique="explicit-state BFS over histories in one tenant with an invariant on the other tenant's observables + SQL statement monitor",
+    design_ref="§4 C06")
+CLAIMED["C07"] = dict(
+    category="exploration", engine="enum",
+    text="Bounded-exhaustive pagination grid on the real handlers: page size {1,2,3} x 7 row counts around the page boundaries x 24 query shapes x duplicates; page size {0,100} x {99,100,101,201} rows; every 3-operation sequence of {none, insert below/above the cursor, delete a returned / a not yet returned other row} at the page boundaries with shard_ids placed by raw SQL; 10 malformed/odd token kinds; REST and gRPC. Oracle: concatenated pages = matching stable rows exactly once, |page| <= size, token empty iff last page, malformed token is a 4xx / InvalidArgument-class error.",
+    note="Row order is forced through shard_id (the keyset key); SQLite only.",
+    technique="bounded-exhaustive enumeration of (store size, page size, query shape, interleaved write history) against a multiset oracle",
+    design_ref="§4 C07")
+CLAIMED["C17"] = dict(
+    category="exploration", engine="enum",
+    text="115 read/syntax-API requests (check GET/POST both variants, batch check, expand, list, list namespaces, syntax check; valid and invalid; known and never-seen names; write routes sent to the read/syntax ports; REST and gRPC) x 3 stored states, every sequence of length 1 and 2 (thorough: length 3 over representatives). Oracle: byte-level dump of ALL tables before = after; monitor: the SQL driver wrapper sees no write statement during a read-API request. Non-vacuity: each write route changes the dump.",
+    note="SQLite only; REST batch check with a null element is exercised in C13's subprocess workers (it kills the process).",
+    technique="bounded-exhaustive request-sequence enumeration with a whole-database dump invariant and an SQL statement monitor",
+    design_ref="§4 C17")
+
 NOT_YET = "check not built yet in this revision (work in progress; see DESIGN.md §4 for the planned model-checking design)"
 
 
